@@ -57,6 +57,10 @@ func Strfmt(ctx *runtime.Task, funcExpr *ast.CallExpr) *errchain.PlError {
 
 	for i := 2; i < len(funcExpr.Param); i++ {
 		v, _, _ := runtime.RunStmt(ctx, funcExpr.Param[i])
+		if containsItself(v, map[uintptr]struct{}{}) {
+			return runtime.NewRunError(ctx,
+				"cannot format a list or map that contains itself", funcExpr.Param[i].StartPos())
+		}
 		outdata = append(outdata, v)
 	}
 
